@@ -7,6 +7,7 @@ Oracle : an executable model made of plain scipy calls on private copies (DESIGN
 """
 import copy
 import random
+import types
 
 import numpy as np
 import scipy.signal as sps
@@ -25,17 +26,53 @@ _S = {}  # per-process seam state
 # ---------------------------------------------------------------------------------------------
 # seams
 # ---------------------------------------------------------------------------------------------
+class _SignalSeam(types.ModuleType):
+    """scipy.signal as seen by a pyoma2 module that imported it as a module: decimate / detrend / sosfiltfilt
+    go through the fault plan, everything else is the real thing."""
+
+    _SITES = {"decimate": "decimate", "detrend": "detrend", "sosfiltfilt": "sosfiltfilt"}
+
+    def __init__(self, real, plan):
+        super().__init__("scipy.signal")
+        object.__setattr__(self, "_real", real)
+        object.__setattr__(self, "_plan", plan)
+
+    def __getattr__(self, name):
+        val = getattr(object.__getattribute__(self, "_real"), name)
+        site = self._SITES.get(name)
+        if site is None:
+            return val
+        return CallSeam(object.__getattribute__(self, "_plan"), site, val)
+
+
 def init_worker():
     if _S:
         return
+    import scipy.signal
+
+    import pyoma2.functions.gen as fgen
     import pyoma2.setup.base as base  # noqa
+    import pyoma2.setup.multi as multi
+    import pyoma2.setup.single as single
 
     plan = FaultPlan()
     _S["plan"] = plan
     _S["base"] = base
-    _S["orig"] = {n: getattr(base, n) for n in ("decimate", "detrend", "filter_data")}
-    for n, real in _S["orig"].items():
-        setattr(base, n, CallSeam(plan, n, real))
+    n = 0
+    # names imported directly (the current code) ...
+    for mod in (base, single, multi):
+        for name in ("decimate", "detrend", "filter_data"):
+            real = getattr(mod, name, None)
+            if callable(real) and not isinstance(real, CallSeam):
+                setattr(mod, name, CallSeam(plan, name, real))
+                n += 1
+    # ... and scipy.signal imported as a module (what a refactoring may do)
+    for mod in (base, single, multi, fgen):
+        for attr in ("signal", "sps", "scipy_signal"):
+            if getattr(mod, attr, None) is scipy.signal:
+                setattr(mod, attr, _SignalSeam(scipy.signal, plan))
+                n += 1
+    _S["seams_installed"] = n
 
 
 def _alg_classes(kind):
@@ -567,6 +604,9 @@ def run_case(seed, tier="quick", case=None, known=()):
                 new, nfs, m_exc = None, None, e
             if fault and m_exc is None:
                 plan.arm(_site(op), fault["call"], fault["exc"], fault["kind"])
+                if k == "filter":
+                    # an implementation may apply the filter itself instead of going through gen.filter_data
+                    plan.arm("sosfiltfilt", fault["call"], fault["exc"], fault["kind"])
             try:
                 _call_real(setup, op)
                 r_exc = None
